@@ -60,10 +60,11 @@ RECURSIVE Flat(_)
 Flat(rs) == IF rs = <<>> THEN <<>> ELSE Head(rs) \o Flat(Tail(rs))
 
 (* ---------------- layout choices at the break after each piece ------------ *)
-InnerOpts == {"sp", "nl", "nl_in", "nl_tab", "nl_bl", "c#", "c%", "c//", "cl#"}
-EndOpts   == {"nl", "sp", "nl_bl", "c#", "c%", "c//", "cl#", "nl_in"}
+(* ("c#0", "c//0": the comment directly after the text, without a blank; "ctab": a tab before it) *)
+InnerOpts == {"sp", "nl", "nl_in", "nl_tab", "nl_bl", "c#", "c%", "c//", "cl#", "c#0", "ctab"}
+EndOpts   == {"nl", "sp", "nl_bl", "c#", "c%", "c//", "cl#", "nl_in", "c#0", "c//0", "ctab"}
 Default(p) == IF p.end THEN "nl" ELSE "sp"
-NeedsD0(o) == o \in {"c#", "c%", "c//", "cl#"}
+NeedsD0(o) == o \in {"c#", "c%", "c//", "cl#", "c#0", "c//0", "ctab"}
 OptsFor(p) == {o \in (IF p.end THEN EndOpts ELSE InnerOpts) : (~NeedsD0(o)) \/ p.d0}
 
 (* all choice vectors with at most K deviations from the default             *)
@@ -74,7 +75,7 @@ Choices(ps) ==
             D \in {S \in SUBSET (DOMAIN ps) : Cardinality(S) <= K} }
 
 Line(ps, indent, comment) == [ps |-> ps, indent |-> indent, comment |-> comment]
-CommentOf(o) == CASE o = "c#" -> "#" [] o = "c%" -> "%" [] o = "c//" -> "//" [] OTHER -> ""
+CommentOf(o) == CASE o = "c#" -> "#" [] o = "c%" -> "%" [] o = "c//" -> "//" [] o = "c#0" -> "#0" [] o = "c//0" -> "//0" [] o = "ctab" -> "%t" [] OTHER -> ""
 
 (* lay the pieces out: returns the sequence of lines                          *)
 RECURSIVE Lay(_, _, _, _, _)
@@ -104,8 +105,10 @@ AllLegal == \A i \in DOMAIN lines : LegalLine(lines[i])
 (* ---------------- emission ---------------- *)
 RECURSIVE JoinSp(_)
 JoinSp(ps) == IF ps = <<>> THEN "" ELSE IF Len(ps) = 1 THEN ps[1].tx ELSE ps[1].tx \o " " \o JoinSp(Tail(ps))
+CommentText(c) == CASE c = "#0" -> "#" [] c = "//0" -> "//" [] c = "%t" -> "%" [] OTHER -> c
+CommentGap(c)  == CASE c \in {"#0", "//0"} -> "" [] c = "%t" -> "\t" [] OTHER -> "  "
 LineText(l) == l.indent \o JoinSp(l.ps)
-               \o (IF l.comment = "" THEN "" ELSE (IF l.ps = <<>> THEN "" ELSE "  ") \o l.comment \o " a comment, with (brackets]. and = ; -")
+               \o (IF l.comment = "" THEN "" ELSE (IF l.ps = <<>> THEN "" ELSE CommentGap(l.comment)) \o CommentText(l.comment) \o " a comment, with (brackets]. and = ; -")
 RECURSIVE LinesText(_)
 LinesText(ls) == IF ls = <<>> THEN <<>> ELSE <<LineText(Head(ls))>> \o LinesText(Tail(ls))
 RECURSIVE RulesText(_)
